@@ -533,6 +533,7 @@ func runJSON(c Case, st *Stats) *ev.Failure {
 		}
 		return nil
 	}
+	var mixedNames []int
 	mf := []ref.Field{glue.UserField(ref.TU32)}
 	marker := func(i int) *ev.Failure {
 		if !registered[idMarker] {
@@ -560,6 +561,40 @@ func runJSON(c Case, st *Stats) *ev.Failure {
 			tp := tpls[s.Of%len(tpls)]
 			set, err := exph.DataSet(tp.ID, tp.Fields, s.Recs, s.Path)
 			fl = valid(i, "data", set, err, len(s.Recs), distinct(tp.Fields))
+		case "data_mixed":
+			// one set, records of two registered templates (the JSON mode renders each record by its
+			// own template): every document carries its own record's elements and nothing else
+			if len(tpls) < 2 {
+				continue
+			}
+			ta, tb := tpls[s.Of%len(tpls)], tpls[(s.Of+1)%len(tpls)]
+			set := entities.NewSet(false)
+			err := set.PrepareSet(entities.Data, ta.ID)
+			order := []Step{ta, tb, ta}
+			for k, tp := range order {
+				if err == nil && k < len(s.Recs) {
+					r := s.Recs[k]
+					if len(r) != len(tp.Fields) {
+						continue
+					}
+					err = set.AddRecord(exph.Elements(tp.Fields, r), tp.ID)
+					if err == nil {
+						mixedNames = append(mixedNames, distinct(tp.Fields))
+					}
+				}
+			}
+			if err != nil || len(mixedNames) == 0 {
+				mixedNames = nil
+				continue
+			}
+			n, serr := ep.SendSet(set)
+			if serr != nil {
+				return ev.Failf("step %d: a set with records of two registered templates was refused in JSON mode: %v", i, serr)
+			}
+			total += n
+			docs += len(mixedNames)
+			names = append(names, mixedNames...)
+			mixedNames = nil
 		case "data_unknown_id":
 			if registered[s.ID] {
 				continue
@@ -663,6 +698,15 @@ func genJSONCase(t *rapid.T) Case {
 			}
 			s.Kind, s.Of, s.Delta = "data_wrong_count", rapid.IntRange(0, len(tpls)-1).Draw(t, "of"), rapid.SampledFrom([]int{-1, 1}).Draw(t, "delta")
 		default:
+			if len(tpls) >= 2 && rapid.Bool().Draw(t, "mixed") {
+				s.Kind, s.Of = "data_mixed", rapid.IntRange(0, len(tpls)-1).Draw(t, "of")
+				for k, tp := range []Step{tpls[s.Of%len(tpls)], tpls[(s.Of+1)%len(tpls)], tpls[s.Of%len(tpls)]} {
+					if k < 2 || rapid.Bool().Draw(t, "third") {
+						s.Recs = append(s.Recs, gen.Record(t, tp.Fields, 100))
+					}
+				}
+				break
+			}
 			s.Kind = "undefined"
 		}
 		c.Steps = append(c.Steps, s)
